@@ -351,4 +351,26 @@ PROPS = {
             {"name": "breaks", "test": "TestBreaks", "checks": {Q: 3200, T: 48000}, "shards": {Q: 16, T: 16}, "timeout": {Q: 500, T: 3000}, "shrinktime": "40s"},
         ],
     },
+    "C17": {
+        "pkg": "c17", "bin": True,
+        "technique": "exhaustive enumeration of import graphs on <=3 files + rapid graphs on <=6 files with a reachability model; "
+                     "exhaustive global/project splits; decided at the binary level",
+        "level_text": "Every edge set (self-imports and cycles included) on 1..3 files in nested directories, and random structures on up "
+                      "to 6 files (mixed YAML/JSON/TOML/.yml, relative paths with ../, directory imports, repeated imports), each file "
+                      "defining a two-command task and a two-stage pipeline (imports are merged with slice append, so a double load is "
+                      "visible). Loading must end within 10 s; with every reachable file intact exactly the reachable definitions are "
+                      "present, each once; a missing or unparsable file inside the closure must make loading fail with a message, "
+                      "outside it must not matter. All 64 splits of {2 tasks, 2 contexts, 2 variables} between the global and the "
+                      "project file must leave everything available.",
+        "level_note": "URL imports are not exercised (no network).",
+        "rule": "exhaustive: 530 graphs (quick: a seventh of them also with one broken file at every position and both kinds; thorough: "
+                "all); random: rapid; splits: 64. Non-trivial = cycle, diamond/repeated import, directory import, or a broken file inside "
+                "the closure; every split except all-global/all-project. Distinct = canonical JSON.",
+        "assumptions": ["a directory import loads the *.yaml files of that directory, not recursively (observed behaviour; README: 'directory')"],
+        "parts": [
+            {"name": "exhaustive", "test": "TestExhaustive", "kind": "plain", "shards": {Q: 16, T: 16}, "timeout": {Q: 500, T: 1800}},
+            {"name": "random", "test": "TestRandom", "checks": {Q: 3200, T: 48000}, "shards": {Q: 16, T: 16}, "timeout": {Q: 500, T: 3000}},
+            {"name": "splits", "test": "TestGlobalSplits", "kind": "plain", "shards": {Q: 8, T: 8}, "timeout": {Q: 300, T: 300}},
+        ],
+    },
 }
